@@ -38,7 +38,7 @@ from ..seams.proc import SimSubprocess
 PROPERTY = "C10"
 LEVEL = "exploration"
 ABSTRACT_WIDTH = 5
-N_RUNS = {"quick": 60000, "thorough": 700000}
+N_RUNS = {"quick": 60000, "thorough": 3000000}
 RULE = ("each run draws one selective element with options (ToCSV, Write, RenderLaTeX, LaTeXToPDF, "
         "PDFToPNG, HistToGraph, MapBins, IterateBins, RunIf, MapGroup(map_scalars=False)), a list A "
         "of 0-4 values it selects, a list B of 0-6 values it does not select (built from the "
